@@ -148,8 +148,14 @@ def build_harness(race=False):
 
 def run_stream(stream, seed, n, outdir, extra=(), name=None):
     os.makedirs(outdir, exist_ok=True)
-    p = run([os.path.join(HARNESS, 'vh'), stream, '--seed', str(seed), '--n', str(n), '--out', outdir] + list(extra),
-            cwd=HARNESS, env=GOENV, timeout=3000)
+    # a stream that does not finish (an operation of the implementation blocks where the harness has no deadline of its
+    # own) is reported like a crash: the harness has a watchdog (exit 3), this timeout is the backstop
+    thorough = 'thorough' in list(extra)
+    try:
+        p = run([os.path.join(HARNESS, 'vh'), stream, '--seed', str(seed), '--n', str(n), '--out', outdir] + list(extra),
+                cwd=HARNESS, env=GOENV, timeout=(6 * 3600 if thorough else 900))
+    except subprocess.TimeoutExpired as e:
+        return None, 'stream %s did not finish within %ds: blocked\n%s' % (stream, e.timeout, ((e.stderr or b'')[-3000:] if isinstance(e.stderr, bytes) else (e.stderr or '')[-3000:]))
     rep_path = os.path.join(outdir, 'report_%s.json' % (name or stream))
     if p.returncode != 0 or not os.path.exists(rep_path):
         return None, (p.stdout + p.stderr)[-4000:]
